@@ -245,7 +245,7 @@ def _thl_cost(case):
 
 def known_signature(f, kf):
     # F-COHERENCE: the cost vector is outside the coherent region
-    return kf["id"] == "F-COHERENCE" and not R.coherent(f.case["costs"], plain=True)
+    return kf["id"] == "F-COHERENCE" and not R.coherent(f.case["costs"], plain=True) and R.coherence_signature(f)
 
 
 def replay_known(ctx, kf):
